@@ -105,6 +105,19 @@ class Scope:
                 used_all |= used
                 self.members = [(mc, nb if (mc is c and mb is b) else mb, mr) for mc, mb, mr in self.members]
                 self.roots = [(rc, nb if (rc is c and rb is b) else rb) for rc, rb in self.roots]
+        # helpers that stay functions of their own (too large, recursive, ..) are judged standalone - with the helpers *they*
+        # call expanded in them
+        for c, b, role in list(self.members):
+            if role != "helper" or c.name != "deserr" or b.path in used_all:
+                continue
+            idx = per_crate.get(id(c))
+            if idx is None:
+                continue
+            nb, used = inl.inline_body(c, b, idx)
+            if nb is not None:
+                self.views[(c.name, c.file, b.path)] = View(nb)
+                used_all |= used
+                self.members = [(mc, nb if (mc is c and mb is b) else mb, mr) for mc, mb, mr in self.members]
         if used_all:
             self.inlined_helpers = used_all
             # (a closure of an expanded helper that was not itself expanded - the function it hands to `try_fold`, `map_err` .. -
